@@ -13,6 +13,8 @@ pub enum Dev {
     BadPoint { pos: usize, bad: usize },
     /// replace the point at position `pos` by itself plus a point outside the subgroup (pairs like the honest one)
     TorsionPoint { pos: usize },
+    /// the point at this position replaced by a neighbour of itself: all but the last bytes equal, on the curve, outside the subgroup
+    NeighbourPoint { pos: usize },
     /// replace the scalar at position `pos` by bad scalar #`bad`
     BadScalar { pos: usize, bad: usize },
     Truncate(usize),
@@ -67,6 +69,30 @@ pub fn valid_point(b: &[u8]) -> bool {
     }
 }
 
+/// a compressed point that shares all but its last four bytes with `p`, lies on the curve and outside the subgroup
+fn neighbour_outside_subgroup(p: &[u8]) -> Option<Vec<u8>> {
+    let len = p.len();
+    if p[0] & 0x40 != 0 {
+        return None;
+    }
+    for k in 1u32..400 {
+        let mut b = p.to_vec();
+        let tail = u32::from_be_bytes(b[len - 4..].try_into().unwrap()).wrapping_add(k);
+        b[len - 4..].copy_from_slice(&tail.to_be_bytes());
+        let bad = if len == 96 {
+            let a: [u8; 96] = b.as_slice().try_into().unwrap();
+            Option::<G2Affine>::from(G2Affine::from_compressed_unchecked(&a)).map(|q| !bool::from(q.is_torsion_free()))
+        } else {
+            let a: [u8; 48] = b.as_slice().try_into().unwrap();
+            Option::<G1Affine>::from(G1Affine::from_compressed_unchecked(&a)).map(|q| !bool::from(q.is_torsion_free()))
+        };
+        if bad == Some(true) {
+            return Some(b);
+        }
+    }
+    None
+}
+
 fn bad_points(g2: bool, honest: &[u8], limit: u32) -> Vec<Bad> {
     let len = if g2 { 96 } else { 48 };
     let mut out = vec![];
@@ -103,6 +129,33 @@ fn bad_points(g2: bool, honest: &[u8], limit: u32) -> Vec<Bad> {
         }
     }
     assert!(nsub >= 5, "too few non-subgroup points found");
+    // neighbours of the honest point: all but the last bytes shared with it (a table keyed by a prefix of the encoding
+    // would take them for the honest point), on the curve, outside the subgroup
+    {
+        let check = |bytes: &[u8]| -> Option<bool> {
+            if g2 {
+                let a: [u8; 96] = bytes.try_into().unwrap();
+                Option::<G2Affine>::from(G2Affine::from_compressed_unchecked(&a)).map(|p| !bool::from(p.is_torsion_free()))
+            } else {
+                let a: [u8; 48] = bytes.try_into().unwrap();
+                Option::<G1Affine>::from(G1Affine::from_compressed_unchecked(&a)).map(|p| !bool::from(p.is_torsion_free()))
+            }
+        };
+        let mut found = 0;
+        for k in 1u32..400 {
+            let mut b = honest.to_vec();
+            let tail = u32::from_be_bytes(b[len - 4..].try_into().unwrap()).wrapping_add(k);
+            b[len - 4..].copy_from_slice(&tail.to_be_bytes());
+            if check(&b) == Some(true) {
+                out.push(Bad { label: format!("honest point with its last bytes changed (+{}): on curve, not in subgroup", k), class: "non-subgroup", bytes: b });
+                found += 1;
+                if found >= 3 {
+                    break;
+                }
+            }
+        }
+        assert!(found >= 1, "no neighbour of the honest point outside the subgroup found");
+    }
     // flag games on an honest point
     let mut b = honest.to_vec();
     b[0] &= 0x7f;
@@ -225,6 +278,7 @@ impl Model for M16 {
             }
             if p[0] & 0x40 == 0 {
                 a.push(Dev::TorsionPoint { pos });
+                a.push(Dev::NeighbourPoint { pos });
             }
             if st.codec == Codec::Json {
                 for kind in 0..4u8 {
@@ -271,6 +325,7 @@ impl Model for M16 {
                 format!("point #{} := {}", pos, self.bads(p.len())[*bad].label)
             }
             Some(Dev::TorsionPoint { pos }) => format!("point #{} := itself + a point outside the subgroup", pos),
+            Some(Dev::NeighbourPoint { pos }) => format!("point #{} := a neighbour sharing all but its last bytes, on the curve, outside the subgroup", pos),
             Some(Dev::BadScalar { pos, bad }) => format!("scalar #{} := {}", pos, self.bad_sc[*bad].label),
             Some(d) => format!("{:?}", d),
             None => "valid encoding".into(),
@@ -310,6 +365,19 @@ impl Model for M16 {
                         // layout changed so that the component cannot be located: machinery problem, not a verdict
                         panic!("cannot locate point #{} in the {:?} encoding of {}", pos, c, tn);
                     }
+                }
+                bad_payload_expected = true;
+            }
+            Some(Dev::NeighbourPoint { pos }) => {
+                let p = &e.points_of(0)[*pos];
+                let Some(t) = neighbour_outside_subgroup(p) else {
+                    // the identity and other special encodings have no such neighbour
+                    return;
+                };
+                cls = "bad-point:neighbour-of-honest".into();
+                match substitute(&enc, c, p, &t, false) {
+                    Some(x) => input = x,
+                    None => panic!("cannot locate point #{} in the {:?} encoding of {}", pos, c, tn),
                 }
                 bad_payload_expected = true;
             }
@@ -398,7 +466,7 @@ impl Model for M16 {
                         o.outcome("valid:rejected");
                         o.expect(&format!("C16:valid-encoding-decodes:{}:{:?}", tn, c), false, "Ok", "Err");
                     }
-                    Some(Dev::BadPoint { .. }) | Some(Dev::TorsionPoint { .. }) => o.outcome("bad-point:rejected"),
+                    Some(Dev::BadPoint { .. }) | Some(Dev::TorsionPoint { .. }) | Some(Dev::NeighbourPoint { .. }) => o.outcome("bad-point:rejected"),
                     Some(Dev::Truncate(_)) => o.outcome("truncated:rejected"),
                     Some(Dev::BadScalar { .. }) => o.outcome(if zero_scalar { "zero-scalar:rejected" } else { "noncanonical-scalar:rejected" }),
                     _ => o.outcome("other:rejected"),
